@@ -32,6 +32,12 @@ func filterOutHLSParams(rawQuery string) string {
 				}
 			}
 			rawQuery = q.Encode()
+		} else {
+			// the query cannot be parsed and is passed on as it is:
+			// escape what cannot appear inside a quoted URI attribute.
+			rawQuery = strings.ReplaceAll(rawQuery, "\"", "%22")
+			rawQuery = strings.ReplaceAll(rawQuery, "\r", "%0D")
+			rawQuery = strings.ReplaceAll(rawQuery, "\n", "%0A")
 		}
 	}
 	return rawQuery
